@@ -54,3 +54,18 @@ Theorem c05_lock_order_acyclic : forall a b, In (a, b) g_lock_order ->
   exists i j, index_of a lock_rank = Some i /\ index_of b lock_rank = Some j /\ (i < j)%nat.
 Proof. exact CallGraph.lock_order_acyclic. Qed.
 Print Assumptions c05_lock_order_acyclic.
+
+(* ---------------------------------------------------------------------------------------------- *)
+(* REGENERATED FROM THE SOURCE ON EVERY RUN (tools/gen -> Generated.g_code; Decisions.v): the decisions the model
+   takes at these points are the evaluations of the conditions the Go source has there, for all values of their
+   variables. *)
+From GK Require Import GExpr Generated Decisions.
+From Coq Require Import String.
+
+(* rootCAS chains the new version behind the previous one iff the previous one has more than two references
+   (Proto.v: chained := bool_decide (2 < v_refs x)) *)
+Theorem c05_chain_rule_is_source :
+  exists c, decisions "Collection.rootCAS" "prev.refs" = [c] /\
+    forall refs : Z, gtrue (upd (upd env0 "prev" 1%Z) "prev.refs" refs) c = Some (Z.ltb 2 refs).
+Proof. exact Decisions.rootcas_chain_decision. Qed.
+Print Assumptions c05_chain_rule_is_source.
